@@ -383,6 +383,27 @@ Section Refine.
       exists w2. split; auto.
   Qed.
 
+  Lemma repr_nth w F j k d :
+    repr w F -> j < n -> k <= md -> nth (j + k * n) w d = F j k.
+  Proof. intros [L H] Hj Hk. apply nth_error_nth. auto. Qed.
+
+  (* every cell of the array is a cell of the matrix *)
+  Lemma repr_all (P : val -> Prop) w F :
+    repr w F -> (forall j k, j < n -> k <= md -> P (F j k)) -> Forall P w.
+  Proof.
+    intros [L H] HP. apply Forall_forall. intros v Hin.
+    destruct (In_nth_error _ _ Hin) as [idx Hidx].
+    assert (Hlt : idx < lenw) by (rewrite <- L; apply nth_error_Some; congruence).
+    unfold lenw in Hlt.
+    pose proof (Nat.div_mod idx n ltac:(lia)) as DM.
+    assert (Hj : idx mod n < n) by (apply Nat.mod_upper_bound; lia).
+    assert (Hk : idx / n <= md).
+    { assert (idx / n < md + 1); [|lia]. apply Nat.div_lt_upper_bound; lia. }
+    specialize (H _ _ Hj Hk).
+    replace (idx mod n + idx / n * n) with idx in H by lia.
+    rewrite Hidx in H. injection H as ->. apply HP; auto.
+  Qed.
+
   (* generate_fdiff_weights_vector stays inside its arrays and computes [fdiffF] *)
   Theorem fdiff_refines :
     exists w, fdiff grid (N.of_nat md) a = Ok w /\ repr w (fdiffF grid a md).
@@ -414,3 +435,26 @@ Section Refine.
     cbn [fst snd] in *. exists w1. split; [reflexivity | exact R2].
   Qed.
 End Refine.
+
+(* ---------- the guard, and the in-bounds theorem ---------- *)
+Lemma guard_sizeP n max_deriv :
+  guard_size n max_deriv = true ->
+  0 < n /\ (N.of_nat n * (N.of_nat (N.to_nat max_deriv) + 1) < W32)%N.
+Proof.
+  unfold guard_size. rewrite N2Nat.id. intros H.
+  apply andb_prop in H. destruct H as [H H3]. apply andb_prop in H. destruct H as [H1 H2].
+  apply N.ltb_lt in H1, H3. split; lia.
+Qed.
+
+(* generate_fdiff_weights_vector never leaves its arrays and returns len_g*(max_deriv+1)
+   weights, for every non-empty grid whose index space fits in 32 bits -- whatever the
+   grid values are (repeated points included). *)
+Theorem fdiff_in_bounds (grid : list Qc) (max_deriv : N) (a : Qc) :
+  guard_size (length grid) max_deriv = true ->
+  exists w, fdiff grid max_deriv a = Ok w /\
+            length w = length grid * (N.to_nat max_deriv + 1).
+Proof.
+  intros G. destruct (guard_sizeP _ _ G) as [Hn Hsz].
+  destruct (fdiff_refines grid a (N.to_nat max_deriv) Hn Hsz) as [w [E [L _]]].
+  rewrite N2Nat.id in E. exists w. split; auto.
+Qed.
